@@ -1,0 +1,69 @@
+//go:build verif
+
+package keyspace
+
+// Contracts for the key helpers (properties C18, C17). Comment-only.
+// The trie functions of this package (trie.go) are generic recursive functions
+// over an external generic trie type; they are outside the verifier's reach
+// and are covered by a bounded check instead (see /verif/DESIGN.md).
+
+/*@
+# a is an ancestor of (or equal to) b in the binary keyspace trie
+pred isAnc(a bitstr.Key, b bitstr.Key) = len(a) <= len(b) && substr(b, 0, len(a)) == a
+axiom substr_prefix_of_prefix: allT(s, bitstr.Key, allT(n, int, allT(m, int, imp(0 <= m && m <= n && n <= len(s), substr(substr(s, 0, n), 0, m) == substr(s, 0, m)))))
+axiom substr_full: allT(s, bitstr.Key, substr(s, 0, len(s)) == s)
+axiom substr_empty: allT(s, bitstr.Key, substr(s, 0, 0) == "")
+axiom substr_of_concat: allT(a, bitstr.Key, allT(b, bitstr.Key, substr(a + b, 0, len(a)) == a))
+
+func FlipLastBit(k bitstr.Key) bitstr.Key
+  props C18 C17
+  modifies nothing
+  ensures [same-length] imp(len(k) == 0 || k[len(k)-1] == 48 || k[len(k)-1] == 49, len(result) == len(k))
+  ensures [same-parent] imp(len(k) > 0, substr(result, 0, len(k)-1) == substr(k, 0, len(k)-1))
+
+func IsBitstrPrefix(k0 bitstr.Key, k1 bitstr.Key) bool
+  props C18 C17
+  modifies nothing
+  ensures [is-the-prefix-relation] result == isAnc(k0, k1)
+
+func FirstFullKeyWithPrefix(k bitstr.Key, order any) bitstr.Key
+  props C18 C17
+  modifies nothing
+  ensures [full-length] len(result) == 256
+  ensures [keeps-the-prefix] imp(len(k) <= 256, isAnc(k, result))
+
+# A covered prefix never leaves the path of the target (two peers or more),
+# and the peers returned are a prefix of the (sorted) peer list.
+func ShortestCoveredPrefix(target bitstr.Key, peers []peer.ID) (bitstr.Key, []peer.ID)
+  props C18 C17
+  modifies nothing
+  ensures [on-the-target-path] imp(len(peers) != 1, isAnc(result0, target))
+  ensures [no-more-peers] len(result1) <= len(peers)
+  loop over peers invariant 0 <= coveredCpl && coveredCpl <= len(target) && 0 <= lastCoveredPeerIndex && lastCoveredPeerIndex <= $key && minCpl <= len(target) && imp(coveredCpl > 0, coveredCpl == minCpl + 1) && lastCoveredPeerIndex <= len(peers)
+
+func SiblingPrefixes(key bitstr.Key) []bitstr.Key
+  props C18
+  modifies nothing
+  ensures [one-per-bit] len(result) == len(key)
+  ensures [sibling-at-depth] all(i, 0, len(key), len(result[i]) == i + 1 && imp(i > 0, substr(result[i], 0, i) == substr(key, 0, i)))
+  loop 0 invariant len(complements) == len(key) && all(j, 0, $key, len(complements[j]) == j + 1 && imp(j > 0, substr(complements[j], 0, j) == substr(key, 0, j)))
+
+# All 2^(n-len(prefix)) extensions of a prefix to n bits: the count, and every
+# element has n bits and starts with the prefix. ($it counts the rounds.)
+axiom pow2_zero: pow2(0) == 1
+axiom pow2_step: allT(k, int, imp(k >= 0, pow2(k + 1) == 2 * pow2(k)))
+
+func ExtendBinaryPrefix(prefix bitstr.Key, n int) []bitstr.Key
+  props C18
+  # (resource bound: 2^(n-len) strings are materialised; beyond 62 the shift itself breaks)
+  requires n - len(prefix) <= 30
+  ghostvar $it int = 0
+  modifies nothing
+  ensures [none-when-impossible] imp(n < 0 || n < len(prefix), len(result) == 0)
+  ensures [all-under-the-prefix] imp(n >= 0 && n >= len(prefix), all(i, 0, len(result), len(result[i]) == n && isAnc(prefix, result[i])))
+  ensures [count] imp(n >= 0 && n >= len(prefix), len(result) == pow2(n - len(prefix)))
+  loop 0 invariant $it == $key && len(wr) == pow2($key) && len(wr) >= 1 && all(i, 0, len(wr), len(wr[i]) == len(prefix) + $key && isAnc(prefix, wr[i]))
+  loop 1 invariant $it >= 1 && len(rd) == pow2($it - 1) && len(wr) == 2 * $key && all(i, 0, len(wr), len(wr[i]) == len(prefix) + $it && isAnc(prefix, wr[i])) && all(i, 0, len(rd), len(rd[i]) == len(prefix) + $it - 1 && isAnc(prefix, rd[i]))
+  ghost at assign(rd): $it = $it + 1
+  ghost at assign(wr[0]): $it = 0
+@*/
